@@ -263,7 +263,7 @@ class Forms:
                     bases.append(k[0])
                 else:
                     d = self.f.defs.get(k[0])
-                    if d is not None and d.op == 'load' and (d.ty or '').endswith('*'):
+                    if d is not None and (d.op == 'alloca' or (d.op == 'load' and (d.ty or '').endswith('*'))):
                         bases.append(k[0])
         if len(bases) != 1:
             return None, p
